@@ -16,6 +16,8 @@ package nsqd
 //   E2E-NOTE  <free text>                    (observations that are not integrity failures)
 //   E2E-OK combos=<n> published=<n> deliveries=<n> redeliveries=<n> bytes=<n>
 //   E2E-FAIL key=<key> what=<one line>       (first integrity failure; details in $VERIF_OUT/e2e_fail.txt)
+//             keys: body-mismatch id-format id-changed ts-changed ts-outside-window attempts missing
+//                   unexpected early rejected-accepted pub-refused proto-error decode buffer-swap
 //   E2E-ERROR what=<one line>                (infrastructure problem, not an integrity failure)
 //
 // env: VERIF_SEED, VERIF_N (messages per combination, 40), VERIF_E2E_COMBOS (10; 0 = all 264),
@@ -71,7 +73,7 @@ type vfE2ERun struct {
 	nsqds  []*NSQD
 
 	combos, published, deliveries, redeliveries, bytes int64
-	looseEarly, looseTotal, strictTotal               int64
+	looseEarly, looseTotal, strictTotal                int64
 	onDisk, inMem                                      int64 // queued in the channels when their consumer said RDY
 }
 
@@ -1139,7 +1141,11 @@ func (cb *vfE2EComboRun) rejections(r *vfRand) {
 	empty := []byte{}
 	base := cb.httpBase(r)
 	// TCP PUB / DPUB / MPUB
-	tcp("PUB max+1", func() []byte { b := over(); mark(b, "PUB of max-msg-size+1"); return cmdBytes(nsq.Publish(cb.topic, b)) })
+	tcp("PUB max+1", func() []byte {
+		b := over()
+		mark(b, "PUB of max-msg-size+1")
+		return cmdBytes(nsq.Publish(cb.topic, b))
+	})
 	tcp("PUB empty", func() []byte { return []byte("PUB " + cb.topic + "\n\x00\x00\x00\x00") })
 	tcp("DPUB max+1", func() []byte {
 		b := over()
@@ -1185,12 +1191,12 @@ func (cb *vfE2EComboRun) rejections(r *vfRand) {
 // ---------------------------------------------------------------------------------------------
 
 type vfE2EChanView struct {
-	ok                      bool
-	topicDepth, depth       int64
-	inFlight, deferred      int
-	clients                 int
-	finCount, requeueCount  uint64
-	clientInFlight          int64
+	ok                     bool
+	topicDepth, depth      int64
+	inFlight, deferred     int
+	clients                int
+	finCount, requeueCount uint64
+	clientInFlight         int64
 }
 
 func (cb *vfE2EComboRun) view(chIdx int) vfE2EChanView {
@@ -1390,7 +1396,9 @@ func (c *vfE2EConsumer) handleMessage(f vfE2EFrame) {
 			id, attempts, len(body), r2.idx, len(r2.body), off, cb.where(c.chIdx, r2)), fmt.Sprintf("id=%s ts=%d attempts=%d\n", id, ts, attempts)+cb.bodyDetail(r2, body, data))
 	}
 	st := &rec.ch[c.chIdx]
-	detail := func() string { return fmt.Sprintf("delivery: id=%s ts=%d attempts=%d received_at=%d\n", id, ts, attempts, f.at) + cb.recDetail(rec) }
+	detail := func() string {
+		return fmt.Sprintf("delivery: id=%s ts=%d attempts=%d received_at=%d\n", id, ts, attempts, f.at) + cb.recDetail(rec)
+	}
 	switch st.state {
 	case vfE2EStFinished:
 		g.fail("unexpected", fmt.Sprintf("message delivered again after it was FIN'd (id %s attempts=%d): %s", id, attempts, cb.where(c.chIdx, rec)), detail())
